@@ -176,6 +176,16 @@ theorem output_visible (m : OutMap) (d : Done) (later : List Done) (hn : d.name 
   rw [afterSteps_keeps later _ d.name (stored d.name d.out) (get_store_same _ _ _) hl]
   simp [restore_stored]
 
+/-- **C11 (retry of a run that never wrote its final record).** Every record of a run carries the output map as it is
+    when the record is written (agent.Status copies it into every node), i.e. the map after SOME prefix of the steps that
+    finish after the producer; a retry reads the LAST WRITTEN record, which is the final one only if the agent lived to
+    write it (it did not if it was killed).  Restoring from ANY record written after the producer finished — however
+    many (`k`) of the later steps had finished by then — yields the captured value. -/
+theorem output_visible_any_record (m : OutMap) (d : Done) (later : List Done) (k : Nat) (hn : d.name ≠ [])
+    (hl : ∀ e ∈ later, e.name ≠ d.name) :
+    seen (afterSteps m (d :: later.take k)) d.name = some (capture d.out) :=
+  output_visible m d (later.take k) hn (fun e he => hl e (List.mem_of_mem_take he))
+
 /-- **C11 (precedence).** A captured output wins over everything else that carries the same name — the agent's own
     environment, a named parameter, a DAG-level `env:` entry (step.Variables), an earlier output under that name: after
     the producer finished every later process sees the captured value, whatever `proc`, `vars`, `ctx` hold. -/
@@ -229,6 +239,7 @@ end BdModel.P11
 #print axioms BdModel.P11.capture_last_attempt
 #print axioms BdModel.P11.restore_exact
 #print axioms BdModel.P11.output_visible
+#print axioms BdModel.P11.output_visible_any_record
 #print axioms BdModel.P11.output_precedence
 #print axioms BdModel.P11.no_output_falls_through
 #print axioms BdModel.P11.output_arrives
